@@ -81,6 +81,14 @@ pub(crate) fn package_buildpack(
     for node in &build_order {
         let buildpack_destination_dir = buildpack_dir_resolver(&node.buildpack_id);
 
+        // The target directory is shared by all buildpack references of a build. A buildpack that is
+        // referenced more than once, directly or as a dependency of another referenced buildpack, has
+        // already been packaged there and is reused instead of being packaged on top of itself.
+        if buildpack_destination_dir.join("buildpack.toml").is_file() {
+            packaged_buildpack_dirs.insert(node.buildpack_id.clone(), buildpack_destination_dir);
+            continue;
+        }
+
         fs::create_dir_all(&buildpack_destination_dir).map_err(|error| {
             PackageBuildpackError::CannotCreateDirectory(buildpack_destination_dir.clone(), error)
         })?;
